@@ -16,6 +16,7 @@ using hx::Pair;
 namespace lk {
 std::function<void()>* g_hold[8];
 WInfo g_winfo[4];
+uint64_t g_quiesce = ~uint64_t(0);
 void* g_other = nullptr;
 }
 
@@ -136,6 +137,7 @@ void lock_body(int inst, std::vector<std::vector<OpI>> threads)
 {
     const Instance& in = g_insts[inst];
     g_nhist = 0;
+    lk::g_quiesce = ~uint64_t(0);
     hx::win_reset();
     for (auto& h : lk::g_hold) h = nullptr;
     size_t base_blocks = live_blocks();
